@@ -67,3 +67,52 @@ macro_rules! l {
 }
 l!(c03_load_first_party_block_scope, false);
 l!(c03_load_third_party_block_scope, true);
+
+/// C13 (snapshot of the token's blocks): `Block::translate` re-expresses a block's block-level key
+/// scope in the target key table (the snapshot's), it does not copy the index
+fn translate_scope() {
+    let (k_from, k_to) = (any_public(false), any_public(false));
+    kani::assume(k_from != k_to);
+    // source table: [k_from]; target table starts as [k_to]: index 0 names different keys
+    let mut from = SymbolTable::new();
+    from.public_keys.insert(&k_from);
+    let mut to = SymbolTable::new();
+    to.public_keys.insert(&k_to);
+    let block = Block {
+        symbols: SymbolTable::new(),
+        facts: Vec::new(),
+        rules: Vec::new(),
+        checks: Vec::new(),
+        context: None,
+        version: 6,
+        external_key: None,
+        public_keys: crate::token::public_keys::PublicKeys::new(),
+        scopes: vec![TScope::PublicKey(0), TScope::Authority],
+    };
+    let r = block.translate(&from, &mut to);
+    let ok = match &r {
+        Ok(b) => {
+            b.scopes.len() == 2
+                && matches!(&b.scopes[1], TScope::Authority)
+                && match &b.scopes[0] {
+                    TScope::PublicKey(id) => to.public_keys.get_key(*id).map(|k| *k == k_from).unwrap_or(false),
+                    _ => false,
+                }
+        }
+        Err(_) => false,
+    };
+    kani::cover!(ok, "witness: block translated");
+    assert!(ok, "a translated block's key scope does not name the same key in the target table");
+    std::mem::forget(r);
+    std::mem::forget(block);
+    std::mem::forget(from);
+    std::mem::forget(to);
+}
+#[kani::proof]
+#[kani::stub(regex::Regex::new, crate::kh_support::regex_new_stub)]
+#[kani::stub(regex::Regex::is_match, crate::kh_support::regex_is_match_stub)]
+#[kani::stub(alloc::fmt::format, crate::kh_support::fmt_format_stub)]
+#[kani::unwind(6)]
+fn c13_block_translate_scopes() {
+    translate_scope();
+}
